@@ -109,9 +109,10 @@ class MrpPairVerifyProcedure(PairVerifyProcedure):
         msg = messages.crypto_pairing(
             {TlvValue.SeqNo: b"\x03", TlvValue.EncryptedData: encrypted_data}
         )
-        await self.protocol.send_and_receive(msg, generate_identifier=False)
+        resp = await self.protocol.send_and_receive(msg, generate_identifier=False)
 
-        # TODO: check status code
+        # The device reports failure to verify us with an error in its final message
+        _get_pairing_data(resp)
 
         return True
 
